@@ -112,6 +112,9 @@ Proof. exact read_req_inst_progress. Qed.
 Theorem c04_source_conn_buffer : ConnInst.cap8k = N.to_nat src_conn_buf_len.
 Proof. exact conn_buf_tie. Qed.
 
+Theorem c04_translation_complete : src_problems_conn_buf = 0%nat.
+Proof. exact conn_buf_translated. Qed.
+
 Print Assumptions c04_handler_runs.
 Print Assumptions c04_instance_continue_code.
 Print Assumptions c04_instance_reader_total.
@@ -124,3 +127,4 @@ Print Assumptions c04_loop_terminates.
 Print Assumptions c04_small_body_exact.
 Print Assumptions c04_double_run_refuted.
 Print Assumptions c04_source_conn_buffer.
+Print Assumptions c04_translation_complete.
